@@ -24,7 +24,7 @@ type prop struct{}
 func (*prop) ID() string    { return "C07" }
 func (*prop) Level() string { return "exploration" }
 func (*prop) Rule() string {
-	return "seeded module layouts (package in the module root or not, nested package, an unselected package with its own outputs, a testdata directory, non-Go files, look-alikes <base>X.go / <base> / <base>_test.go / <base>.notes.txt, a stale <base>.old.go that is part of the package, outputs of generators that are no longer run, pre-existing / missing / garbage gengo.sum) x All on/off x OutputFileBaseName in {zz_generated, zz, gen.out} " +
+	return "seeded module layouts (single-module, or with a nested module and a look-alike sibling module - example.com/c07/tools, example.com/c07-contrib - imported through replace directives; package in the module root or not, nested package, an unselected package with its own outputs, a testdata directory, non-Go files, look-alikes <base>X.go / <base> / <base>_test.go / <base>.notes.txt, a stale <base>.old.go that is part of the package, outputs of generators that are no longer run, pre-existing / missing / garbage gengo.sum) x All on/off x OutputFileBaseName in {zz_generated, zz, gen.out} " +
 		"x per (package, generator) behaviour in {renders, renders only from a Defer callback, renders nothing, ErrSkip for all, ErrIgnore+nothing, ErrIgnore for one type and ErrSkip / nil for the others (either order), ErrIgnore+something, alias-only, alias ErrIgnore+nothing} x previous output present/absent; three generators per run (one implements GenerateAliasType). The real Execute runs in the worker; the oracle compares sha256+mode snapshots of every path under the module before and after: " +
 		"changed/created/deleted paths must lie in {<pkgdir>/<base>.* of executed packages} + {<modroot>/gengo.sum iff All}; a cache-skipped or unselected package is entirely unchanged; in an executed package each generator's file exists afterwards iff it rendered something (and then carries that generator's marker), except ErrIgnore+nothing => bytes exactly as before; stale <base>.*.go members are gone. " +
 		"Thorough tier additionally runs configurations in a child process under strace -f and requires that no open-for-write / creat / unlink / rename / truncate / mkdir under the module root falls outside the allow-set (catches write-then-restore). " +
@@ -79,6 +79,7 @@ type config struct {
 	Stale   bool              `json:"stale"`
 	Sum     string            `json:"sum"` // none | garbage | empty
 	Entries []string          `json:"entries"`
+	Multi   bool              `json:"multi"` // nested + sibling modules imported through replace
 }
 
 func genConfig(r *rand.Rand) config {
@@ -95,6 +96,7 @@ func genConfig(r *rand.Rand) config {
 		}
 		cfg.Gens = append(cfg.Gens, gs)
 	}
+	cfg.Multi = r.Intn(3) == 0
 	cfg.Entries = []string{"./a"}
 	if r.Intn(4) == 0 {
 		cfg.Entries = []string{"./a", "./b/nested"}
@@ -124,6 +126,9 @@ func prevContent(pkgName, gen string) string {
 // build writes the module and returns the package list.
 func build(m *fixture.Module, cfg config) []layout.Pkg {
 	ps := pkgs(cfg.Root)
+	if cfg.Multi {
+		ps[0].Imports = append(ps[0].Imports, mod+"/tools", mod+"-contrib")
+	}
 	for _, p := range ps {
 		p.Write(m)
 		d := p.Dir
@@ -131,6 +136,9 @@ func build(m *fixture.Module, cfg config) []layout.Pkg {
 		m.MustWrite(filepath.Join(d, cfg.Base), "look-alike without extension\n")
 		m.MustWrite(filepath.Join(d, cfg.Base+"_test.go"), "package "+p.Name+"\n")
 		m.MustWrite(filepath.Join(d, cfg.Base+".notes.txt"), "notes\n")
+		if cfg.Stale {
+			m.MustWrite(filepath.Join(d, cfg.Base+".g2.go.tmp"), strings.Repeat("left-over of an interrupted run\n", 300))
+		}
 		m.MustWrite(filepath.Join(d, "data.json"), "{}\n")
 		for _, gn := range []string{"g1", "g2", "g3"} {
 			if cfg.Prev[p.Dir+"|"+gn] {
@@ -141,6 +149,15 @@ func build(m *fixture.Module, cfg config) []layout.Pkg {
 			m.MustWrite(filepath.Join(d, cfg.Base+".old.go"), "package "+p.Name+"\n\n// stale output of a generator that is no longer run\n")
 			m.MustWrite(filepath.Join(d, cfg.Base+".gone.go"), prevContent(p.Name, "gone"))
 		}
+	}
+	if cfg.Multi {
+		// a nested module inside the tree and a look-alike sibling module whose path merely starts with the main
+		// module's path; both are imported by package a (through replace directives) and must never be touched
+		m.MustWrite("tools/go.mod", "module "+mod+"/tools\n\ngo 1.24\n")
+		m.MustWrite("tools/tools.go", "// +gengo:g1\n// +gengo:g2\n// +gengo:g3\npackage tools\n\ntype Anchor struct{ N int }\n\ntype Tool struct{}\n")
+		m.MustWrite("tools/"+cfg.Base+".g1.go", "package tools\n\n// output of another module's own run\n")
+		m.MustWrite("_sibling/contrib/go.mod", "module "+mod+"-contrib\n\ngo 1.24\n")
+		m.MustWrite("_sibling/contrib/contrib.go", "// +gengo:g1\n// +gengo:g2\n// +gengo:g3\npackage contrib\n\ntype Anchor struct{ N int }\n\ntype Extra struct{}\n")
 	}
 	m.MustWrite("README.md", "# scratch\n")
 	m.MustWrite("a/testdata/x/x.go", "package x\n\ntype X struct{}\n")
@@ -320,7 +337,11 @@ func straceViolations(log, root string, allowed func(rel string) bool) (violatio
 }
 
 func (p *prop) runConfig(c core.Case, w *core.Worker, res *core.Result, cfg config, idx int, strace bool) {
-	m, err := fixture.New(w.Scratch, fmt.Sprintf("c07-%d-%d", c.ID, idx), mod, "1.24")
+	extra := ""
+	if cfg.Multi {
+		extra = fmt.Sprintf("\nrequire (\n\t%s/tools v0.0.0\n\t%s-contrib v0.0.0\n)\n\nreplace (\n\t%s/tools => ./tools\n\t%s-contrib => ./_sibling/contrib\n)\n", mod, mod, mod, mod)
+	}
+	m, err := fixture.New(w.Scratch, fmt.Sprintf("c07-%d-%d", c.ID, idx), mod, "1.24", extra)
 	if err != nil {
 		res.Inconclusive = append(res.Inconclusive, err.Error())
 		return
